@@ -1028,6 +1028,14 @@ def _generate_structure_virtual_field_methods(enclosing_type_name, field_ir, ir)
             _TEMPLATES.structure_single_virtual_field_method_definitions
         )
 
+    name = field_ir.name.canonical_name.object_path[-1]
+    if name.startswith("$"):
+        name = _cpp_field_name(field_ir.name.name.text)
+        virtual_view_type_name = "EmbossReservedDollarVirtual{}View".format(name)
+    else:
+        virtual_view_type_name = "EmbossReservedVirtual{}View".format(
+            name_conversion.snake_to_camel(name)
+        )
     if field_ir.write_method.which_method == "transform":
         destination = _render_variable(
             ir_util.hashable_form_of_field_reference(
@@ -1041,6 +1049,7 @@ def _generate_structure_virtual_field_methods(enclosing_type_name, field_ir, ir)
         ).rendered
         write_methods = code_template.format_template(
             _TEMPLATES.structure_single_virtual_field_write_methods,
+            name=name,
             logical_type=logical_type,
             destination=destination,
             transform=transform,
@@ -1048,14 +1057,6 @@ def _generate_structure_virtual_field_methods(enclosing_type_name, field_ir, ir)
     else:
         write_methods = ""
 
-    name = field_ir.name.canonical_name.object_path[-1]
-    if name.startswith("$"):
-        name = _cpp_field_name(field_ir.name.name.text)
-        virtual_view_type_name = "EmbossReservedDollarVirtual{}View".format(name)
-    else:
-        virtual_view_type_name = "EmbossReservedVirtual{}View".format(
-            name_conversion.snake_to_camel(name)
-        )
     assert logical_type, "Could not find appropriate C++ type for {}".format(
         field_ir.read_transform
     )
